@@ -16,6 +16,7 @@ pub fn dispatch(line: &str) -> String {
         "lex" => lexs::run(&toks[1..]),
         "xs" | "xf" | "xp" => xs::run(&toks[1..]),
         "c1" => xs::run_c1(&toks[1..]),
+        "c1c" => xs::run_c1c(&toks[1..]),
         "pool" => pool::run(&toks[1..]),
         other => format!("UNKNOWN-KIND {}", other),
     });
